@@ -98,6 +98,75 @@
 
     crypto_stubs! {
         #[kani::unwind(5)]
+        fn c04_revisions_cover_all_21() {
+            use crate::data_struct::RevisionVec;
+            use crate::vcollections::LinkedList;
+            let a: u8 = kani::any(); let b: u8 = kani::any(); let c: u8 = kani::any();
+            let mut l1 = LinkedList::new(); l1.push_back(a); l1.push_back(b);
+            let mut rv: RevisionVec<u8, u8> = RevisionVec::new();
+            rv.insert_new_chain(1, l1);
+            rv.create_chain_with_single_value(2, c);
+            let mut yielded = 0usize;
+            let mut rounds = 0usize;
+            let mut it = rv.revisions();
+            while rounds < 4 {
+                match it.next() { Some(rev) => { yielded += rev.len(); } None => break }
+                rounds += 1;
+            }
+            assert!(rounds < 4, "iterator must terminate");
+            assert!(yielded == rv.count_elements(), "every (key, secret) pair must be yielded exactly once");
+        }
+    }
+
+    crypto_stubs! {
+        #[kani::unwind(6)]
+        fn c14_revisions_terminate_empty() {
+            use crate::data_struct::RevisionVec;
+            let rv: RevisionVec<u8, u8> = RevisionVec::new();
+            let mut it = rv.revisions();
+            let first = it.next();
+            // measure contract: a Some must consume at least one element; with zero chains there is nothing to consume
+            assert!(first.is_none(), "iterator over zero chains must be empty");
+        }
+    }
+
+    crypto_stubs! {
+        #[kani::unwind(5)]
+        fn l3_decaps_coverage_21x1() {
+            use crate::core::{RightSecretKey, UserId, UserSecretKey, XEnc, Encapsulations};
+            use crate::core::nike::ElGamal;
+            use crate::traits::Nike;
+            use crate::data_struct::RevisionVec;
+            use crate::vcollections::LinkedList;
+            type Sk = <ElGamal as Nike>::SecretKey;
+            type Pk = <ElGamal as Nike>::PublicKey;
+            let mut rng = SymRng;
+            let v: [u8; 9] = kani::any();
+            kani::assume(v[0] < 251 && v[1] < 251 && v[2] < 251 && v[3] < 251 && v[4] < 251 && v[5] < 251 && v[6] < 251 && v[7] < 251 && v[8] < 251);
+            let mut id = LinkedList::new(); id.push_back(Sk { 0: v[0] }); id.push_back(Sk { 0: v[1] });
+            let mut ch1 = LinkedList::new();
+            ch1.push_back(RightSecretKey::Classic { sk: Sk { 0: v[2] } });
+            ch1.push_back(RightSecretKey::Classic { sk: Sk { 0: v[3] } });
+            let mut secrets: RevisionVec<crate::abe_policy::Right, RightSecretKey> = RevisionVec::new();
+            secrets.insert_new_chain(crate::abe_policy::Right(vec![1u8]), ch1);
+            secrets.create_chain_with_single_value(crate::abe_policy::Right(vec![2u8]), RightSecretKey::Classic { sk: Sk { 0: v[4] } });
+            let usk = UserSecretKey { id: UserId(id), ps: vec![Pk { 0: v[5] }, Pk { 0: v[6] }], secrets, signature: None };
+            let enc = XEnc { tag: kani::any(), c: vec![Pk { 0: v[7] }, Pk { 0: v[8] }], encapsulations: Encapsulations::CEncs(vec![kani::any()]) };
+            let before = unsafe { oracle::N };
+            let res = super::decaps(&mut rng, &usk, &enc).unwrap();
+            let after = unsafe { oracle::N };
+            let mut h = 0usize; let mut i = 0usize;
+            while i < oracle::MAXQ {
+                if i >= before && i < after && unsafe { oracle::DOMS[i] == oracle::DOM_SHA3_256 && oracle::LENS[i] == 33 } { h += 1; }
+                i += 1;
+            }
+            kani::cover!(res.is_none());
+            if res.is_none() { assert!(h == 3, "every secret of every chain must be tried against the encapsulation"); }
+        }
+    }
+
+    crypto_stubs! {
+        #[kani::unwind(5)]
         fn micro_d_vmap_right_list() {
             use crate::vcollections::LinkedList;
             let mut m: HashMap<Right, LinkedList<u8>> = HashMap::new();
